@@ -60,6 +60,7 @@ fn main() {
             if args.len() < 4 {
                 usage();
             }
+            clock::remove_stale_scratch_parents();
             let rc = supervisor::check(&args[2], parse_tier(&args[3]));
             let _ = std::fs::remove_dir_all(clock::campaign_scratch_parent());
             std::process::exit(rc);
